@@ -192,6 +192,19 @@ func runGraph(prop string, mix opMix) func(s *Sim) {
 		}
 		lastNodePts := map[string]data.Points{}
 		lastEdgePts := map[[2]string]data.Points{}
+		// one run in twelve starts with a chain of 17–26 nodes below the root: walks to the top have no depth limit
+		if wl.Chance(1, 12) {
+			parent := g.root
+			for i, n := 0, 17+wl.Draw(10); i < n; i++ {
+				id := newNode()
+				g.edges[[2]string{parent, id}] = true
+				typ, par := g.typ[id], parent
+				addOp(fmt.Sprintf("chain %s under %s", id, par), func(a *Actor) error {
+					return client.SendNode(a.Nc, data.NodeEdge{ID: id, Parent: par, Type: typ}, "chain")
+				})
+				parent = id
+			}
+		}
 		tab := mix.table()
 		for wl.More(14) {
 			switch weighted(wl, tab) {
